@@ -709,6 +709,23 @@ func ruleNsCarry(c *Ctx) []Obligation {
 					obs = append(obs, bad(R, conP, c.InstrPos(al), "Node is copied from one entry and Prefix from another: for a node that another module augmented in, the stand-in carries that module's schema node under the augmented module's prefix, and a lookup that resolves the entry's own prefix through its node ends in the wrong module"))
 				}
 			}
+			// … but not its config: a case has no config statement, it inherits from the choice like any node
+			// without one (the wrapped node keeps its own)
+			conC := fmt.Sprintf("%s: the entry made to stand for another does not take over its config", c.FnName(fn))
+			fConfig := FieldVar(entry, "Config")
+			copied := false
+			for _, st := range storesToField(fn, fConfig) {
+				if _, _, base := fieldOf(st.Addr); base == ssa.Value(al) {
+					if _, f, src := loadedField(st.Val); f == fConfig && src != nil && sameObject(src, wrapped) {
+						copied = true
+					}
+				}
+			}
+			if copied {
+				obs = append(obs, bad(R, conC, c.InstrPos(al), "the stand-in copies the config of the entry it wraps: the implicit case of `leaf a { config false; }` reports read-only where the explicit spelling `case a { leaf a { config false; } }` is read-write, and keeps saying so after a deviation changed the leaf"))
+			} else {
+				obs = append(obs, ok(R, conC, c.InstrPos(al), "no Config store from the wrapped entry"))
+			}
 			if carried {
 				obs = append(obs, ok(R, con, c.InstrPos(al), "namespace: x.namespace, x being the entry it becomes the parent of"))
 			} else {
